@@ -206,6 +206,9 @@ def check(eng, res):
     one = eng.prog.func("system.System.generate")
     res.unit(gen)
     res.unit(one)
+    from ..memo import memo_rules
+
+    memo_rules(eng, res, only_classes=["MolGen", "System"], only_modules=["system"])
     Pg = gen_guard(eng, res, gen)
     Po = gen_guard(eng, res, one)
     lp, y = accum(eng, res, Pg)
